@@ -113,6 +113,13 @@ def Scenario.fnOut (sc : Scenario) (k : Nat) : FnOut := (sc.fn.lookup k).getD .o
 def Scenario.predOut (sc : Scenario) (k : Nat) : PredOut := (sc.pred.lookup k).getD .t
 def Scenario.cancelIn (sc : Scenario) : Option Nat :=
   if sc.cancel.startsWith "in:" then (sc.cancel.drop 3).toNat? else none
+/-- `cancel=sl:<S>:<i>`: element `i` of slice `S` cancels the directive's context when it is called. -/
+def Scenario.cancelSl (sc : Scenario) : Option (Nat × Nat) :=
+  if sc.cancel.startsWith "sl:" then
+    match ((sc.cancel.drop 3).toString.splitOn ":").map String.toNat? with
+    | [some s, some i] => some (s, i)
+    | _ => none
+  else none
 
 /-- panic value classes: string, error value, runtime error, struct, and `pe`: a `*cff.PanicError`
     obtained from another directive (the `must(err)` idiom). -/
